@@ -257,6 +257,65 @@ struct Hd : StBase<CFG, HEAD_TAG, ZCfg<CFG>::headInj()>::type {
 #endif
 };
 
+
+// ---- templated forms of the API (changeTo<T>(), isActive<T>(), succeed<T>() ...), dispatched over the state index -------------
+template <int CFG>
+struct Tmpl {
+	using Z = ZCfg<CFG>;
+	using FSM = typename Zoo<CFG>::FSM;
+	using Instance = typename FSM::Instance;
+	using Payload = typename Z::Payload;
+	static constexpr int N = Z::N;
+	template <int I> using S = StT<CFG, I, Z::bare(I)>;
+	using Seq = std::make_index_sequence<N>;
+
+	template <class M, size_t... Is> static uint64_t activeMask(const M& m, std::index_sequence<Is...>) {
+		uint64_t mask = 0;
+		const bool each[] = {m.template isActive<S<int(Is)>>()...};
+		for (size_t k = 0; k < sizeof...(Is); ++k) if (each[k]) mask |= (1ull << k);
+		return mask;
+	}
+	template <size_t... Is> static bool idsOk(std::index_sequence<Is...>) {
+		const bool each[] = {(FSM::template stateId<S<int(Is)>>() == ffsm2::StateID(Is))...};
+		for (bool b : each) if (!b) return false;
+		return true;
+	}
+	// op: 0 changeTo 1 immediateChangeTo 2 succeed 3 fail 4 changeWith 5 immediateChangeWith
+	template <class M, int I> static void one(M& m, int op, uint8_t seed) {
+		(void) seed;
+		switch (op) {
+		case 0: m.template changeTo<S<I>>(); break;
+		case 1: if constexpr (std::is_same<M, Instance>::value) m.template immediateChangeTo<S<I>>(); break;
+#ifdef VF_PLANS
+		case 2: m.template succeed<S<I>>(); break;
+		case 3: m.template fail<S<I>>(); break;
+#endif
+		case 4: if constexpr (!std::is_void<Payload>::value) m.template changeWith<S<I>>(makePay<Payload>(seed)); break;
+		case 5: if constexpr (!std::is_void<Payload>::value && std::is_same<M, Instance>::value) m.template immediateChangeWith<S<I>>(makePay<Payload>(seed)); break;
+		default: break;
+		}
+	}
+	template <class M, size_t... Is> static void call(M& m, int k, int op, uint8_t seed, std::index_sequence<Is...>) {
+		using Fn = void (*)(M&, int, uint8_t);
+		static const Fn table[] = {&one<M, int(Is)>...};
+		table[k](m, op, seed);
+	}
+	template <class M> static void call(M& m, int k, int op, uint8_t seed = 0) { call(m, k, op, seed, Seq{}); }
+#ifdef VF_PLANS
+	template <class P, int I> static bool planOne(P& p, uint8_t dest, uint8_t seed) {
+		(void) seed;
+		if constexpr (!std::is_void<Payload>::value) { if (seed) return p.template changeWith<S<I>>(dest, makePay<Payload>(seed)); }
+		return p.template change<S<I>>(dest);
+	}
+	template <class P, size_t... Is> static bool planAppend(P& p, int origin, uint8_t dest, uint8_t seed, std::index_sequence<Is...>) {
+		using Fn = bool (*)(P&, uint8_t, uint8_t);
+		static const Fn table[] = {&planOne<P, int(Is)>...};
+		return table[origin](p, dest, seed);
+	}
+	template <class P> static bool planAppend(P& p, int origin, uint8_t dest, uint8_t seed) { return planAppend(p, origin, dest, seed, Seq{}); }
+#endif
+};
+
 // ---- runner ---------------------------------------------------------------------------------------
 template <int CFG>
 struct Runner {
@@ -383,6 +442,7 @@ struct Runner {
 		uint64_t mask = 0;
 		for (int k = 0; k < N; ++k) if (m.isActive(static_cast<ffsm2::StateID>(k))) mask |= (1ull << k);
 		e.mActMask = mask;
+		if (Tmpl<CFG>::activeMask(m, typename Tmpl<CFG>::Seq{}) != mask || !Tmpl<CFG>::idsOk(typename Tmpl<CFG>::Seq{})) e.tmplOk = 0;   // isActive<T>() / stateId<T>() agree with the id forms
 		if constexpr (Z::IS_MANUAL) e.mManual = m.isActive() ? 1 : 0; else e.mManual = 2;
 #ifdef VF_HISTORY
 		e.prev = trOf(m.previousTransition());
@@ -435,6 +495,7 @@ struct Runner {
 		uint64_t mask = 0;
 		for (int k = 0; k < N; ++k) if (control.isActive(static_cast<ffsm2::StateID>(k))) mask |= (1ull << k);
 		e.cAct = mask;
+		if (Tmpl<CFG>::activeMask(control, typename Tmpl<CFG>::Seq{}) != mask) e.ctmplOk = 0;
 		e.req = trOf(control.request());
 		if constexpr (fl == CTL_GUARD) e.pend = trOf(control.pendingTransition());
 		if constexpr (fl != CTL_CONST) e.cur = trOf(control.currentTransition());
@@ -525,14 +586,16 @@ struct Runner {
 		if (kind == ACT_NONE) { if (((act.kind & ACT_KIND_MASK) % ACT_COUNT) != ACT_NONE) ++W.tr->normalised; return; }
 		Ev& a = pushEv(EV_ACT);
 		a.state = state; a.method = kind; a.d = method;
+		const bool tmplForm = ((act.x / N) & 1) != 0;   // use the templated form of the call (changeTo<T>() ...) instead of the id form
 		switch (kind) {
 		case ACT_REQUEST:
 			if constexpr (full) {
 				a.a = normState(reqDest);
 				if constexpr (HAS_PAY) {
 					a.c = act.pay;
-					if (act.pay) control.changeWith(a.a, makePay<Payload>(act.pay)); else control.changeTo(a.a);
-				} else control.changeTo(a.a);
+					if (act.pay) { if (tmplForm) Tmpl<CFG>::call(control, a.a, 4, act.pay); else control.changeWith(a.a, makePay<Payload>(act.pay)); }
+					else { if (tmplForm) Tmpl<CFG>::call(control, a.a, 0); else control.changeTo(a.a); }
+				} else { if (tmplForm) Tmpl<CFG>::call(control, a.a, 0); else control.changeTo(a.a); }
 			}
 			break;
 		case ACT_CANCEL:
@@ -541,15 +604,16 @@ struct Runner {
 #ifdef VF_PLANS
 		case ACT_SUCCEED_SELF: if constexpr (full) { a.a = state; control.succeed(); } break;
 		case ACT_FAIL_SELF: if constexpr (full) { a.a = state; control.fail(); } break;
-		case ACT_SUCCEED_ID: if constexpr (full) { a.a = normState(act.x); control.succeed(a.a); } break;
-		case ACT_FAIL_ID: if constexpr (full) { a.a = normState(act.x); control.fail(a.a); } break;
+		case ACT_SUCCEED_ID: if constexpr (full) { a.a = normState(act.x); if (tmplForm) Tmpl<CFG>::call(control, a.a, 2); else control.succeed(a.a); } break;
+		case ACT_FAIL_ID: if constexpr (full) { a.a = normState(act.x); if (tmplForm) Tmpl<CFG>::call(control, a.a, 3); else control.fail(a.a); } break;
 		case ACT_PLAN_APPEND: {
 			a.a = normState(act.x); a.b = normState(act.y);
 			bool r;
 			if constexpr (HAS_PAY) {
 				a.c = act.pay;
-				if (act.pay) r = control.plan().changeWith(a.a, a.b, makePay<Payload>(act.pay)); else r = control.plan().change(a.a, a.b);
-			} else r = control.plan().change(a.a, a.b);
+				if (tmplForm) { auto pl = control.plan(); r = Tmpl<CFG>::planAppend(pl, a.a, a.b, act.pay); }
+				else if (act.pay) r = control.plan().changeWith(a.a, a.b, makePay<Payload>(act.pay)); else r = control.plan().change(a.a, a.b);
+			} else { if (tmplForm) { auto pl = control.plan(); r = Tmpl<CFG>::planAppend(pl, a.a, a.b, 0); } else r = control.plan().change(a.a, a.b); }
 			note(NOTE_APPEND_RESULT, r, a.a, a.b);
 			break; }
 		case ACT_PLAN_CLEAR: control.plan().clear(); break;
@@ -696,6 +760,7 @@ struct Runner {
 		if (code == OP_LOAD && !saved[op.a & 1]) norm(OP_SAVE);
 #endif
 		if (!HAS_PAY) op.pay = 0;
+		const bool tmplForm = ((op.a / N) & 1) != 0;   // templated form of the call (changeTo<T>(), succeed<T>() ...) instead of the id form
 		Instance& m = *ptr(inst);
 		W.op = actSource; W.actPos = 0;
 		W.quiet = false; W.hostile = false;
@@ -724,9 +789,14 @@ struct Runner {
 			begin(inst, code, op.a, 0, op.pay);
 			ok = guarded(inst, [&] {
 				if constexpr (HAS_PAY) {
-					if (op.pay) { if (code == OP_CHANGE) m.changeWith(op.a, makePay<Payload>(op.pay)); else m.immediateChangeWith(op.a, makePay<Payload>(op.pay)); return; }
+					if (op.pay) {
+						if (tmplForm) Tmpl<CFG>::call(m, op.a, code == OP_CHANGE ? 4 : 5, op.pay);
+						else if (code == OP_CHANGE) m.changeWith(op.a, makePay<Payload>(op.pay)); else m.immediateChangeWith(op.a, makePay<Payload>(op.pay));
+						return;
+					}
 				}
-				if (code == OP_CHANGE) m.changeTo(op.a); else m.immediateChangeTo(op.a);
+				if (tmplForm) Tmpl<CFG>::call(m, op.a, code == OP_CHANGE ? 0 : 1);
+				else if (code == OP_CHANGE) m.changeTo(op.a); else m.immediateChangeTo(op.a);
 			});
 			break; }
 #ifdef VF_PLANS
@@ -735,6 +805,7 @@ struct Runner {
 			begin(inst, code, op.a, op.b, op.pay);
 			bool r = false;
 			ok = guarded(inst, [&] {
+				if (tmplForm) { auto pl = m.plan(); r = Tmpl<CFG>::planAppend(pl, op.a, op.b, op.pay); return; }
 				if constexpr (HAS_PAY) { if (op.pay) { r = m.plan().changeWith(op.a, op.b, makePay<Payload>(op.pay)); return; } }
 				r = m.plan().change(op.a, op.b);
 			});
@@ -763,7 +834,7 @@ struct Runner {
 		case OP_SUCCEED: case OP_FAIL:
 			op.a = normState(op.a);
 			begin(inst, code, op.a, 0, 0);
-			ok = guarded(inst, [&] { if (code == OP_SUCCEED) m.succeed(op.a); else m.fail(op.a); });
+			ok = guarded(inst, [&] { if (tmplForm) Tmpl<CFG>::call(m, op.a, code == OP_SUCCEED ? 2 : 3); else if (code == OP_SUCCEED) m.succeed(op.a); else m.fail(op.a); });
 			break;
 #endif
 		case OP_ENTER:
